@@ -924,7 +924,10 @@ once, and
     cell of `r` holds a float: then `cliRun` says `.unrendered .dump` and nothing is claimed;
   * when the call returns an error: exit code 1, nothing on stdout, "Error: " followed by the error text on stderr;
   * when the call panics, so does the program.
-(Without `-v`, `-debug`; writes to stdout are assumed not to fail — see `renderDump`.) -/
+(Without `-v`, `-debug`; writes to stdout are assumed not to fail — see `renderDump`.)
+`L` is ANY library record here; Props/C12CliDump.lean instantiates `L.dumpDataDir` with the model of the real DumpDataDir on a
+file system (`C12_cli_dump_is_dumpDataDir`: the run = render (dumpDataDir fs (dumpOptions flags))) and, on the tree of a
+cluster, ties stdout to `Spec.expectedDump` (`C12_cli_dump_on_cluster`). -/
 theorem C12_cli_dump_output (L : Lib) (detected : Bytes) (f : Flags) (hm : C12.noModeFlag f)
     (dir : Bytes) (hdir : dir = if f.dataDir = [] then detected else f.dataDir) (hne : dir ≠ []) :
     let opts : Spec.Options :=
